@@ -5,6 +5,7 @@ package main
 import (
 	"bytes"
 	"crypto/sha256"
+	"encoding/hex"
 	"encoding/json"
 	"flag"
 	"fmt"
@@ -12,6 +13,7 @@ import (
 	"os"
 	"os/exec"
 	"sort"
+	"strconv"
 	"strings"
 	"time"
 
@@ -21,6 +23,7 @@ import (
 	"verifsim/alpha"
 	"verifsim/hist"
 	"verifsim/prng"
+	"verifsim/ref"
 	"verifsim/sched"
 )
 
@@ -108,13 +111,23 @@ func genSchedTrace(base, idx uint64, small bool) (*SchedTrace, sched.Policy, uin
 		e := alpha.LE32(v)
 		t.Scalars = append(t.Scalars, e[:])
 	}
-	g := edwards25519.NewGeneratorPoint().Bytes() // before any hook is set; does not touch the lazy tables
-	t.Points = append(t.Points, g)
+	// (no library call here: the harness must not perform first use of any part of
+	// the API before the concurrent phase)
+	bp := ref.Base()
+	g := alpha.Encode(bp.X, bp.Y)
+	t.Points = append(t.Points, g[:])
 	for len(t.Points) < np {
 		b := rng.Bytes(32)
-		if _, err := new(edwards25519.Point).SetBytes(b); err == nil {
-			t.Points = append(t.Points, b)
+		sign := uint(b[31] >> 7)
+		b[31] &= 0x7f
+		y := alpha.FromLE(b)
+		y.Mod(y, alpha.P)
+		x, ok := ref.RecoverX(y, sign)
+		if !ok {
+			continue
 		}
+		e := alpha.Encode(x, y)
+		t.Points = append(t.Points, e[:])
 	}
 	nt := 2 + rng.Intn(7)
 	if small {
@@ -234,21 +247,87 @@ type shared struct {
 
 func buildShared(t *SchedTrace) (*shared, error) {
 	sh := &shared{}
+	// built directly in memory from the reference model: no decoder of the library
+	// runs before the concurrent phase
 	for _, b := range t.Scalars {
-		s, err := new(edwards25519.Scalar).SetCanonicalBytes(b)
-		if err != nil {
-			return nil, fmt.Errorf("shared scalar: %v", err)
+		if len(b) != 32 {
+			return nil, fmt.Errorf("shared scalar: bad length")
 		}
-		sh.S = append(sh.S, s)
+		sh.S = append(sh.S, hist.ScalarFromInt(alpha.FromLE(b)))
 	}
 	for _, b := range t.Points {
-		p, err := new(edwards25519.Point).SetBytes(b)
-		if err != nil {
-			return nil, fmt.Errorf("shared point: %v", err)
+		if len(b) != 32 {
+			return nil, fmt.Errorf("shared point: bad length")
 		}
-		sh.P = append(sh.P, p)
+		yb := append([]byte{}, b...)
+		sign := uint(yb[31] >> 7)
+		yb[31] &= 0x7f
+		y := alpha.FromLE(yb)
+		y.Mod(y, alpha.P)
+		x, ok := ref.RecoverX(y, sign)
+		if !ok {
+			return nil, fmt.Errorf("shared point: not on the curve")
+		}
+		sh.P = append(sh.P, hist.PointFromAffine(x, y))
 	}
 	return sh, nil
+}
+
+// The task bodies must not call into packages that synchronise internally
+// (fmt keeps a sync.Pool): under the race detector that would add
+// happens-before edges between tasks and could mask races in the library.
+func hx(b []byte) string { return hex.EncodeToString(b) }
+
+func errText(e error) string {
+	if e == nil {
+		return "<nil>"
+	}
+	return e.Error()
+}
+
+func panicText(r interface{}) string {
+	switch x := r.(type) {
+	case string:
+		return x
+	case error:
+		return x.Error()
+	}
+	return "non-string panic value"
+}
+
+func rawPointHex(r alpha.PointRaw) string {
+	var b []byte
+	for _, l := range [4]alpha.Limbs{r.X, r.Y, r.Z, r.T} {
+		for _, x := range l {
+			b = strconv.AppendUint(b, x, 16)
+			b = append(b, ',')
+		}
+	}
+	return string(b)
+}
+
+// finaliseDigests turns the raw coordinates recorded by the task bodies into
+// representation-independent value digests (big.Int work, done outside the
+// concurrent phase).
+func finaliseDigests(res [][]string) {
+	for i := range res {
+		for j, d := range res[i] {
+			k := strings.Index(d, " -> RAW:")
+			if k < 0 {
+				continue
+			}
+			fs := strings.Split(strings.TrimSuffix(d[k+len(" -> RAW:"):], ","), ",")
+			var raw alpha.PointRaw
+			if len(fs) == 20 {
+				ls := [4]*alpha.Limbs{&raw.X, &raw.Y, &raw.Z, &raw.T}
+				for q := 0; q < 20; q++ {
+					v, _ := strconv.ParseUint(fs[q], 16, 64)
+					ls[q/5][q%5] = v
+				}
+			}
+			res[i][j] = d[:k] + " -> " + hist.ValueDigestPoint(raw)
+		}
+	}
 }
 
 // runProgram executes one task program; out receives one digest per op.
@@ -270,7 +349,7 @@ func runProgram(prog []TOp, sh *shared, out *[]string) {
 		func() {
 			defer func() {
 				if r := recover(); r != nil {
-					extra = fmt.Sprintf(" panic=%v", r)
+					extra = " panic=" + panicText(r)
 					recv = nil
 				}
 			}()
@@ -299,14 +378,14 @@ func runProgram(prog []TOp, sh *shared, out *[]string) {
 				recv.MultByCofactor(pt(op.P[0]))
 			case "BytesRoundTrip":
 				b := pt(op.P[0]).Bytes()
-				extra = fmt.Sprintf(" bytes=%x", b)
+				extra = " bytes=" + hx(b)
 				if _, err := recv.SetBytes(b); err != nil {
 					extra += " err=" + err.Error()
 					recv = nil
 				}
 			case "Encode":
 				p := pt(op.P[0])
-				extra = fmt.Sprintf(" bytes=%x mont=%x", p.Bytes(), p.BytesMontgomery())
+				extra = " bytes=" + hx(p.Bytes()) + " mont=" + hx(p.BytesMontgomery())
 				recv = edwards25519.NewIdentityPoint()
 			case "CoordsRoundTrip":
 				X, Y, Z, T := pt(op.P[0]).ExtendedCoordinates()
@@ -318,13 +397,13 @@ func runProgram(prog []TOp, sh *shared, out *[]string) {
 				recv.Negate(pt(op.P[0]))
 				recv.Subtract(recv, pt(op.P[1]))
 			case "Equal":
-				extra = fmt.Sprintf(" equal=%d", pt(op.P[0]).Equal(pt(op.P[1])))
+				extra = " equal=" + strconv.Itoa(pt(op.P[0]).Equal(pt(op.P[1])))
 				recv = edwards25519.NewIdentityPoint()
 			case "ScalarArith":
 				s := new(edwards25519.Scalar).MultiplyAdd(sc(op.S[0]), sc(op.S[1]), sc(op.S[2]))
 				s.Subtract(s, sc(op.S[0])).Negate(s)
 				u, _ := new(edwards25519.Scalar).SetUniformBytes(append(s.Bytes(), sc(op.S[1]).Bytes()...))
-				extra = fmt.Sprintf(" scalar=%x wide=%x eq=%d", s.Bytes(), u.Bytes(), s.Equal(u))
+				extra = " scalar=" + hx(s.Bytes()) + " wide=" + hx(u.Bytes()) + " eq=" + strconv.Itoa(s.Equal(u))
 				recv = edwards25519.NewIdentityPoint()
 			case "FieldArith":
 				X, Y, Z, _ := pt(op.P[0]).ExtendedCoordinates()
@@ -334,7 +413,7 @@ func runProgram(prog []TOp, sh *shared, out *[]string) {
 				e.Multiply(Y, &e)
 				r, wasSq := new(field.Element).SqrtRatio(&f, &e)
 				f.Absolute(f.Subtract(&f, &e))
-				extra = fmt.Sprintf(" x=%x sqrt=%x/%d abs=%x neg=%d", f.Bytes(), r.Bytes(), wasSq, f.Bytes(), e.IsNegative())
+				extra = " x=" + hx(f.Bytes()) + " sqrt=" + hx(r.Bytes()) + "/" + strconv.Itoa(wasSq) + " abs=" + hx(f.Bytes()) + " neg=" + strconv.Itoa(e.IsNegative())
 				recv = edwards25519.NewIdentityPoint()
 			case "SetterErrors":
 				// every fallible setter on a rejected input, receivers holding values
@@ -354,7 +433,7 @@ func runProgram(prog []TOp, sh *shared, out *[]string) {
 				_, e7 := e.SetWideBytes(big)
 				X, Y, Z, T := p.ExtendedCoordinates()
 				_, e8 := p.SetExtendedCoordinates(Y, X, Z, T)
-				extra = fmt.Sprintf(" errs=%v|%v|%v|%v|%v|%v|%v|%v p=%x s=%x e=%x", e1, e2, e3, e4, e5, e6, e7, e8, p.Bytes(), s.Bytes(), e.Bytes())
+				extra = " errs=" + errText(e1) + "|" + errText(e2) + "|" + errText(e3) + "|" + errText(e4) + "|" + errText(e5) + "|" + errText(e6) + "|" + errText(e7) + "|" + errText(e8) + " p=" + hx(p.Bytes()) + " s=" + hx(s.Bytes()) + " e=" + hx(e.Bytes())
 				recv = edwards25519.NewIdentityPoint()
 			case "ScalarSweep":
 				a, b, c := sc(op.S[0]), sc(op.S[1]), sc(op.S[2])
@@ -362,7 +441,7 @@ func runProgram(prog []TOp, sh *shared, out *[]string) {
 				s.Multiply(s, c).Negate(s).Invert(s)
 				cl, _ := new(edwards25519.Scalar).SetBytesWithClamping(a.Bytes())
 				cn, _ := new(edwards25519.Scalar).SetCanonicalBytes(s.Bytes())
-				extra = fmt.Sprintf(" s=%x cl=%x eq=%d/%d", s.Bytes(), cl.Bytes(), cn.Equal(s), a.Equal(b))
+				extra = " s=" + hx(s.Bytes()) + " cl=" + hx(cl.Bytes()) + " eq=" + strconv.Itoa(cn.Equal(s)) + "/" + strconv.Itoa(a.Equal(b))
 				recv = edwards25519.NewIdentityPoint()
 			case "ElementSweep":
 				X, Y, Z, T := pt(op.P[0]).ExtendedCoordinates()
@@ -377,7 +456,7 @@ func runProgram(prog []TOp, sh *shared, out *[]string) {
 				var z, o field.Element
 				z.Zero()
 				o.One()
-				extra = fmt.Sprintf(" a=%x b=%x c=%x w=%x eq=%d/%d", a.Bytes(), b.Bytes(), c.Bytes(), w.Bytes(), z.Equal(&o), a.Equal(&b))
+				extra = " a=" + hx(a.Bytes()) + " b=" + hx(b.Bytes()) + " c=" + hx(c.Bytes()) + " w=" + hx(w.Bytes()) + " eq=" + strconv.Itoa(z.Equal(&o)) + "/" + strconv.Itoa(a.Equal(&b))
 				recv = edwards25519.NewIdentityPoint()
 			case "MultiMany":
 				var ss []*edwards25519.Scalar
@@ -388,21 +467,22 @@ func runProgram(prog []TOp, sh *shared, out *[]string) {
 				}
 				recv.MultiScalarMult(ss, ps)
 				v := new(edwards25519.Point).VarTimeMultiScalarMult(ss, ps)
-				extra = fmt.Sprintf(" vartime-equal=%d", v.Equal(recv))
+				extra = " vartime-equal=" + strconv.Itoa(v.Equal(recv))
 			case "NewGenerator":
 				recv = edwards25519.NewGeneratorPoint()
 			case "ScalarInvert":
 				s := new(edwards25519.Scalar).Invert(sc(op.S[0]))
-				extra = fmt.Sprintf(" scalar=%x", s.Bytes())
+				extra = " scalar=" + hx(s.Bytes())
 				recv = edwards25519.NewIdentityPoint()
 			}
 		}()
 		d := op.Kind + extra
 		if recv != nil {
-			d += " -> " + hist.ValueDigestPoint(alpha.PointLimbs(recv))
+			d += " -> RAW:" + rawPointHex(alpha.PointLimbs(recv))
 			prev = recv
 		}
 		*out = append(*out, d)
+		sched.OpBoundary()
 	}
 }
 
@@ -482,10 +562,12 @@ type RefOut struct {
 	// Battery: outputs of a fixed set of basepoint operations that together read
 	// every entry of the lazily built tables.
 	Battery string `json:"battery"`
+	// LazyConst: package-level variables (pkg.name) that are lazily built constants.
+	LazyConst []string `json:"lazy_const"`
 }
 
 func cmdSchedRef() {
-	if err := hist.Init(); err != nil {
+	if err := hist.InitNoLibrary(); err != nil {
 		fatal2("%v", err)
 	}
 	var t SchedTrace
@@ -496,19 +578,23 @@ func cmdSchedRef() {
 	if err != nil {
 		fatal2("%v", err)
 	}
+	atStart := pkgVarStates()
 	ro := &RefOut{Results: make([][]string, len(t.Programs))}
 	ro.Cold = sched.CountSequential(func() {
 		for i, p := range t.Programs {
 			runProgram(p, sh, &ro.Results[i])
 		}
 	})
+	finaliseDigests(ro.Results)
 	ro.PkgHash = fmt.Sprintf("%x", sha256.Sum256(pkgSnapHook()()))
+	afterCold := pkgVarStates()
 	ro.Warm = sched.CountSequential(func() {
 		for _, p := range t.Programs {
 			var sink []string
 			runProgram(p, sh, &sink)
 		}
 	})
+	afterWarm := pkgVarStates()
 	ro.Battery = tableBattery()
 	sh2 := freshShared(sh)
 	ro.Fresh = sched.CountSequential(func() {
@@ -517,7 +603,26 @@ func cmdSchedRef() {
 			runProgram(p, sh2, &sink)
 		}
 	})
+	afterFresh := pkgVarStates()
+	// lazily built constants: package-level variables whose content was changed by
+	// the cold pass and then never again (same after the warm pass and after the
+	// pass on fresh arguments)
+	for name, st := range afterCold {
+		if string(st) != string(atStart[name]) && string(st) == string(afterWarm[name]) && string(st) == string(afterFresh[name]) {
+			ro.LazyConst = append(ro.LazyConst, name)
+		}
+	}
+	sort.Strings(ro.LazyConst)
 	json.NewEncoder(os.Stdout).Encode(ro)
+}
+
+// pkgVarStates renders every package-level variable of both packages separately.
+func pkgVarStates() map[string][]byte {
+	m := edwards25519.VerifPkgVarStates()
+	for k, v := range field.VerifPkgVarStates() {
+		m[k] = v
+	}
+	return m
 }
 
 func cmdSched(args []string) {
@@ -530,7 +635,7 @@ func cmdSched(args []string) {
 	progFile := fs.String("programs", "", "debugging aid: JSON file with task programs that replace the generated ones (scheduling still generated)")
 	out := fs.String("out", "", "output file")
 	fs.Parse(args)
-	if err := hist.Init(); err != nil {
+	if err := hist.InitNoLibrary(); err != nil {
 		fatal2("%v", err)
 	}
 	if !field.VerifInstrumented {
@@ -613,7 +718,7 @@ func runSched(t *SchedTrace, pol sched.Policy, schedSeed uint64, replay [][]sche
 		i := i
 		bodies[i] = func() { runProgram(t.Programs[i], sh, &results[i]) }
 	}
-	res, first := sched.Run(bodies, schedSeed, pol, replay, 120*time.Second)
+	res, first := sched.Run(bodies, schedSeed, pol, replay, 600*time.Second)
 	if replay == nil {
 		t.First = first
 		t.Decisions = res.Log
@@ -622,11 +727,12 @@ func runSched(t *SchedTrace, pol sched.Policy, schedSeed uint64, replay [][]sche
 	so.Stats["switches"] = int64(res.Switches)
 	so.Stats["gate_blocks"] = int64(res.GateBlocks)
 	so.Stats["gate_calls"] = int64(res.GateCalls)
+	so.Stats["gate_calls_open"] = int64(res.GateCallsOpen)
 	so.Stats["preempt_inside_once_closure"] = int64(res.PreemptInClosure)
 	so.Stats["tasks"] = int64(n)
 	so.SwitchHash = fmt.Sprintf("%016x", res.SwitchHash)
 	if res.Watchdog {
-		fatal2("watchdog: the concurrent phase made no progress for 120 s (unsupported blocking construct?)")
+		fatal2("watchdog: the concurrent phase did not finish within 600 s (a task blocked in a primitive the scheduler does not control?)")
 	}
 	if res.LogOverflow && replay == nil {
 		// more context switches than the decision log holds: the run cannot be
@@ -660,10 +766,11 @@ func runSched(t *SchedTrace, pol sched.Policy, schedSeed uint64, replay [][]sche
 		return so
 	}
 	if res.StepCap {
-		so.Violation = viol("no-progress", "step-cap", fmt.Sprintf("the tasks executed more than %d statements without finishing (livelock)", sched.StepCap))
+		so.Violation = viol("no-progress", "step-cap", fmt.Sprintf("the tasks executed more than %d statements without any of them completing an operation (livelock)", sched.StepCap))
 		so.Hash = fmt.Sprintf("%x", h.Sum(nil)[:16])
 		return so
 	}
+	finaliseDigests(results)
 	for i := range results {
 		for _, r := range results[i] {
 			fmt.Fprintf(h, "%d %s\n", i, r)
@@ -685,6 +792,7 @@ func runSched(t *SchedTrace, pol sched.Policy, schedSeed uint64, replay [][]sche
 			runProgram(p, sh, &seq[i])
 		}
 	})
+	finaliseDigests(seq)
 	for i := range seq {
 		for j := range seq[i] {
 			if j >= len(results[i]) || results[i][j] != seq[i][j] {
@@ -738,10 +846,21 @@ func runSched(t *SchedTrace, pol sched.Policy, schedSeed uint64, replay [][]sche
 		so.Violation = viol("lazy-table-content-depends-on-schedule", "tables", "after the concurrent phase, basepoint operations that together read every entry of the lazily built tables give results different from those of a sequential cold process: a table entry was built or published wrongly under this schedule")
 		return so
 	}
-	// oracle 2: first-use-only package-state write sites execute exactly as often as sequentially
+	// oracle 2: constructed exactly once. Counted only where it is sound to count:
+	// statements that WRITE (assignment, inc/dec, pointer-method call - not a mere
+	// address-of) a composite expression rooted at a package-level variable that the
+	// reference process identified as a lazily built constant (changed by the first
+	// use, never again by warm calls or calls on fresh arguments), that run cold but
+	// neither warm nor on fresh arguments, and that ran at least twice as often as in
+	// the sequential cold run (one whole extra construction). Bookkeeping scalars,
+	// caches, pools and statistics never qualify.
+	lazy := map[string]bool{}
+	for _, n := range ro.LazyConst {
+		lazy[n] = true
+	}
 	firstUse := 0
 	for s, sd := range field.VerifSites {
-		if !sd.Write || s >= len(ro.Cold) {
+		if !sd.Write || !lazy[sd.Root] || s >= len(ro.Cold) {
 			continue
 		}
 		if ro.Warm[s] == 0 && ro.Cold[s] > 0 && (s >= len(ro.Fresh) || ro.Fresh[s] == 0) {
@@ -754,9 +873,9 @@ func runSched(t *SchedTrace, pol sched.Policy, schedSeed uint64, replay [][]sche
 					tasksTouching++
 				}
 			}
-			if conc != ro.Cold[s] {
+			if conc >= 2*ro.Cold[s] {
 				so.Violation = viol("first-use-construction-not-exactly-once", sd.File,
-					fmt.Sprintf("first-use package-state write at %s executed %d times (by %d tasks) under this schedule, %d times in a sequential cold run", siteName(s), conc, tasksTouching, ro.Cold[s]))
+					fmt.Sprintf("the lazily built constant %s was constructed more than once: the write at %s executed %d times (by %d tasks) under this schedule, %d times in a sequential cold run", sd.Root, siteName(s), conc, tasksTouching, ro.Cold[s]))
 				return so
 			}
 		}
@@ -799,10 +918,13 @@ func runSched(t *SchedTrace, pol sched.Policy, schedSeed uint64, replay [][]sche
 	}
 	so.Stats["first_use_only_statements_cold"] = int64(coldWork)
 	so.Stats["first_use_only_statements_repeated"] = int64(excess)
+	// (2b is advisory: repeated first-use-only work cannot be told apart from the
+	// legitimate initialisation of pooled scratch objects by several concurrent users,
+	// so it is recorded in the evidence, not reported as a violation.)
 	if excess > 200 && excess*10 > coldWork {
-		so.Violation = viol("first-use-construction-not-exactly-once", "duplicated-work",
-			fmt.Sprintf("statements that only run on first use were executed %d times more often under this schedule than in a sequential cold run (which executes %d of them); most repeated: %s, %d extra executions: the first-use construction ran more than once", excess, coldWork, siteName(worst), worstExcess))
-		return so
+		so.Stats["runs_with_repeated_first_use_work"] = 1
+		_ = worst
+		_ = worstExcess
 	}
 	_ = warm
 	// distinct per-task site traces (reach measure)
